@@ -71,6 +71,21 @@ class P(framework.Prop):
             t = rng.choice(["1", "-1.5", "1e3", " 2 ", "abc", "", "0x10", "1.", "01", "-0", "1e400", "12345678901234567890", "[1]", "true",
                             "null", "\"3\"", "1 2", "3.25", "1E-2", "-", "+1", ".5", "9007199254740993", "0.1", "123456789.123456789123"])
             out.append(fn("to_number", t))
+        # strings as sequences of code points: combining marks, joiners, variation selectors, right-to-left and astral characters, lone
+        # surrogates cannot occur; reverse/length/contains/starts_with/ends_with/join/sort/max/min treat every code point alike
+        UNI = ["a", "e", "\u0301", "\u0308", "\u200d", "\ufe0f", "\u05d0", "\u0627", "\U0001f468", "\U0001f469", "\U0001f3fd", "\u1ab0", "\u20d7", "\ufe20",
+               "\u00e9", "\u0065\u0301", "\u1100\u1161", "\uac00", "\u0e33", "\u2028", "\ufeff", "\u0000", "\x7f", "\ud7ff", "\ue000", "\U0010ffff", "z"]
+        for _ in range(120 if tier == "quick" else 6000):
+            u1 = "".join(rng.choice(UNI) for _ in range(rng.randint(1, 6)))
+            u2 = "".join(rng.choice(UNI) for _ in range(rng.randint(1, 2)))
+            ua = ["".join(rng.choice(UNI) for _ in range(rng.randint(0, 3))) for _ in range(rng.randint(0, 5))]
+            out += [fn("reverse", u1), fn("length", u1), fn("contains", u1, u2), fn("starts_with", u1, u2), fn("ends_with", u1, u2), fn("ends_with", u1 + u2, u2),
+                    fn("starts_with", u2 + u1, u2), fn("join", u2, ua), fn("sort", ua), fn("max", ua), fn("min", ua), fn("reverse", ua), fn("to_string", u1),
+                    fn("to_number", u1)]
+        # ceil/floor/abs far outside the 64-bit integer range, at its edges and on integers stored as such
+        for x in [1e19, -1e19, 4e19, 1.5e300, -1.5e300, 2**64 - 1, 2**63, -2**63, 2**63 - 1, 9.223372036854775e18, -9.223372036854777e18, 2**53 + 1, -(2**53) - 1,
+                  1.8446744073709552e19, 0.5, -0.5, -0.0, 1e-320, 123456789012345680000.0]:
+            out += [fn("ceil", x), fn("floor", x), fn("abs", x)]
         # the expression reference is evaluated against every element, null and falsy elements included
         arrs = [[1, None, "a"], [None], [None, None, 2], [[], None, {}, "", False, 0], [{"k": None}, None, {"k": 1}], [[None], None]]
         for _ in range(4 if tier == "quick" else 200):
